@@ -32,8 +32,16 @@ def needed_base(test_clauses):
     return [c for c in P.BASE if (c[0][1][0][1], len(c[0][1]) - 1) in out_keys]
 
 
+DATA_CHOICES = [(3, 7), (5, 5), (1, -2)]
+
+
 def program(m, case):
     syms = {}
+    if case.get('concrete_data'):
+        # programs whose output is the subject print their data: the two data integers are one of three concrete pairs (distinct, equal,
+        # one equal to a fact of n/1) instead of solver variables, so that the reference can print them
+        i, j = DATA_CHOICES[m.choose(len(DATA_CHOICES))]
+        syms = {'I': i, 'J': j}
     clauses = [P.inst(m, c, syms) for c in needed_base(case['clauses'])] + [P.inst(m, tuple(c), syms) for c in case['clauses']]
     query = P.inst(m, tuple(case['query']), syms)
     return clauses, query
